@@ -81,6 +81,11 @@ CLAIMED = {
          "Every corrupted configuration must return Err with empty stdout, the stdin factory never invoked and the input file never opened; the uncorrupted twin must run.",
          "Trusted: only corruptions that are invalid by the documented grammar are generated (arity table of 30 functions transcribed from the sources).",
          "DESIGN.md §3 C18"),
+ "C19": ("exploration",
+         "property-based testing: digit-exact round trip of boundary and random 64-bit integers through 49 non-arithmetic routes; differential testing of the number-as-string functions against exact big-integer arithmetic (num-bigint) with three spellings per operand",
+         "Every integer of [-2^63, 2^64) that enters a non-arithmetic route must come out with the same digits (ordered list, or multiset where the route reorders); + - * abs normalise and the six comparisons on decimal strings of up to 60 digits must equal exact arithmetic whatever the spelling, and normalise must map equal values to one string.",
+         "Trusted: num-bigint; digit runs are extracted textually from stdout.",
+         "DESIGN.md §3 C19"),
  "C20": ("exploration",
          "differential property-based testing of the real executable (spawned with pipes, closed pipe, /dev/full) against the in-process library run of the same arguments",
          "Exit status 0 iff the library run is Ok and all output could be written; stdout/stderr byte-identical to the library's streams on success; non-zero status with a message on stderr on failure; nothing on stdout for invalid configurations.",
